@@ -19,13 +19,16 @@ go test -vet=off -count=1 ./... 2>&1 | grep -E "^(FAIL[[:space:]]+goa|--- FAIL|p
 grep -v "xray" $wt.fails > $wt.fails2
 if [ -s $wt.fails2 ]; then echo "$prop-$m: SUITE HAS NEW FAILURES:"; head -5 $wt.fails2; git -C /repo worktree remove --force $wt; exit 1; fi
 demo_path=$(python3 -c "import json;print(json.load(open('$src/meta.json'))['demo_path_in_repo'])")
-demo_cmd=$(python3 -c "
+demo_cmd=$(python3 - <<PY
 import json,re
 c=json.load(open('$src/meta.json'))['demo_cmd']
-c=re.sub(r'^\s*cd [^&;]*(&&|;)\s*','',c)
-c=re.sub(r'export [A-Z=a-z\- ]*&&\s*','',c)
-print(c)")
-demo_file=$(ls $src | grep -v -E "patch.diff|meta.json|\.log$" | head -1)
+k=c.rfind('go test')
+c=c[k:]
+c=re.split(r'\s+#|\s*&&|\s*;', c)[0]
+print(c)
+PY
+)
+demo_file=$(ls $src | grep -E "_test\.go$" | head -1)
 mkdir -p $(dirname $wt/$demo_path); cp $src/$demo_file $wt/$demo_path
 demo_cmd=${demo_cmd//\/tmp\/wt-$prop/$wt}
 ( cd $wt && eval "$demo_cmd" ) > $wt.demo_with 2>&1; with=$?
